@@ -27,6 +27,7 @@ from __future__ import annotations
 
 import ast
 import difflib
+import os
 import textwrap
 
 from . import terms as T
@@ -197,6 +198,7 @@ def compare(ctx, rule, fa, ref_source, module=None, known=(), ignore=None, why='
             rename[T.V(fa.vararg)] = T.V(ref.vararg)
         if fa.kwarg and ref.kwarg and fa.kwarg != ref.kwarg:
             rename[T.V(fa.kwarg)] = T.V(ref.kwarg)
+    _compare_defaults(ctx, rule, fa, ref, positional_params, why)
     got = effects(fa, rename, drop_guards=drop_guards)
     want = effects(ref, drop_guards=drop_guards)
     if normalize is not None:
@@ -258,6 +260,52 @@ def compare(ctx, rule, fa, ref_source, module=None, known=(), ignore=None, why='
         _report(ctx, rule, fa, None, None, _show_effect(q, hs), known, why, f'missing-effect#{k}')
     _ABBREV.clear()
     return ref
+
+
+def _defaults(node):
+    """parameter name -> default expression (ast) ; plus the positional order."""
+    a = node.args
+    pos = list(a.posonlyargs) + list(a.args)
+    out = {}
+    for arg, d in zip(pos[len(pos) - len(a.defaults):], a.defaults):
+        out[arg.arg] = d
+    for arg, d in zip(a.kwonlyargs, a.kw_defaults):
+        if d is not None:
+            out[arg.arg] = d
+    return [x.arg for x in pos], out
+
+
+def _default_value(d):
+    try:
+        return ('lit', repr(ast.literal_eval(d)))
+    except (ValueError, SyntaxError, TypeError):
+        return ('expr', ast.unparse(d))
+
+
+def _compare_defaults(ctx, rule, fa, ref, positional, why):
+    """A default value is behaviour for every caller that omits the argument: where the reference
+    declares a default, the repository function must declare the same one."""
+    apos, adef = _defaults(fa.fi.node)
+    rpos, rdef = _defaults(ref.fi.node)
+    names = {}
+    if positional:
+        for a, b in zip(apos, rpos):
+            names[b] = a
+    for rname, d in rdef.items():
+        aname = names.get(rname, rname)
+        inst = f'default:{aname}'
+        where = f'{os.path.relpath(fa.fi.file, ctx.repo.root)}:{fa.fi.node.lineno} {fa.fi.qualname}'
+        if aname not in adef:
+            all_params = set(apos) | {x.arg for x in fa.fi.node.args.kwonlyargs}
+            if aname not in all_params:
+                continue            # the reference names a parameter the function reads from **kwargs
+            ctx.bad(rule, inst, where, found=f'{aname} has no default', expected=f'{aname}={_default_value(d)[1]}', reason=why,
+                    key=f'{rule}|{fa.fi.qualname}|default|{aname}|<none>')
+            continue
+        got, want = _default_value(adef[aname]), _default_value(d)
+        ctx.check(got == want, rule, inst, where, found=f'{aname}={got[1]}', expected=f'{aname}={want[1]}',
+                  reason='the default is what every caller that omits the argument gets; ' + why,
+                  key=f'{rule}|{fa.fi.qualname}|default|{aname}|{got[1]}')
 
 
 def _report(ctx, rule, fa, e, found, expected, known, why, inst):
